@@ -62,7 +62,7 @@ def decide(smt, outdir, timeout=20, order=("z3-5.1", "cvc5-1.0.3", "z3-4.8.12"),
     return {"verdict": verdict, "by": by, "times": times, "file": path}
 
 
-def discharge_all(obligs, outdir, timeout=20, jobs=16, all_solvers=False):
+def discharge_all(obligs, outdir, timeout=20, jobs=16, all_solvers=False, order=None):
     os.makedirs(outdir, exist_ok=True)
     smts = []
     for o in obligs:
@@ -73,7 +73,7 @@ def discharge_all(obligs, outdir, timeout=20, jobs=16, all_solvers=False):
         uniq.setdefault(s, None)
     keys = list(uniq)
     with ThreadPoolExecutor(max_workers=jobs) as ex:
-        for k, r in zip(keys, ex.map(lambda s: decide(s, outdir, timeout, all_solvers=all_solvers), keys)):
+        for k, r in zip(keys, ex.map(lambda s: decide(s, outdir, timeout, all_solvers=all_solvers, **({'order': order} if order else {})), keys)):
             uniq[k] = r
     return [uniq[s] for s in smts]
 
@@ -101,3 +101,22 @@ print(json.dumps({"result": str(r), "model": out}))
         return json.loads(p.stdout.strip().splitlines()[-1])
     except Exception as e:
         return {"result": "error", "model": {}, "error": str(e)[:200]}
+
+
+def check_canaries(canaries, outdir, timeout=3, jobs=16):
+    """a canary (path condition after an assumption) must be satisfiable unless the path condition before
+    the assumption was already unsatisfiable.  Returns the list of contradictory ones (id, detail)."""
+    import z3 as _z3
+    os.makedirs(outdir, exist_ok=True)
+    res = discharge_all(canaries, outdir, timeout=timeout, jobs=jobs, order=("z3-5.1",))
+    suspects = [(c, r) for c, r in zip(canaries, res) if r["verdict"] == "unsat"]
+    if not suspects:
+        return [], len(canaries)
+    from .engine import Obligation
+    befores = [Obligation(c.id + "/before", c.meta["before"], _z3.BoolVal(False)) for c, _ in suspects]
+    res2 = discharge_all(befores, outdir, timeout=timeout, jobs=jobs)
+    bad = []
+    for (c, r), r2 in zip(suspects, res2):
+        if r2["verdict"] != "unsat":
+            bad.append((c.id, "path condition becomes unsatisfiable by the assumption (before: %s)" % r2["verdict"]))
+    return bad, len(canaries)
